@@ -23,11 +23,14 @@ REQUIRED_COUNTERS = ["chunked_runs", "extra_state_threaded", "cuts", "clipped_la
 
 def cases(tier, seed):
     out = []
+    reps = 1 if tier == "quick" else 8
     for ci, cell in enumerate(zoo.matrix()):
-        out.append({"key": f"{zoo.cell_name(cell)}-single", "cell": cell, "mode": "single",
-                    "rseed": hash((seed, ci, 1)) % (2 ** 31), "cost": 3})
-        out.append({"key": f"{zoo.cell_name(cell)}-multi", "cell": cell, "mode": "multi",
-                    "rseed": hash((seed, ci, 2)) % (2 ** 31), "cost": 4})
+        for r in range(reps):
+            sfx = "" if r == 0 else f"-{r}"
+            out.append({"key": f"{zoo.cell_name(cell)}-single{sfx}", "cell": cell, "mode": "single",
+                        "rseed": hash((seed, ci, 1, r)) % (2 ** 31) if r else hash((seed, ci, 1)) % (2 ** 31), "cost": 3})
+            out.append({"key": f"{zoo.cell_name(cell)}-multi{sfx}", "cell": cell, "mode": "multi",
+                        "rseed": hash((seed, ci, 2, r)) % (2 ** 31) if r else hash((seed, ci, 2)) % (2 ** 31), "cost": 4})
         if tier == "thorough" and cell["noise_type"] in ("diagonal", "general"):
             out.append({"key": f"{zoo.cell_name(cell)}-all", "cell": cell, "mode": "all",
                         "rseed": hash((seed, ci, 3)) % (2 ** 31), "cost": 60})
